@@ -67,6 +67,7 @@ fn random(a: &Args) {
     base.inner_tl = a.flag("innertl");
     base.p_nest = a.num("pnest", 0.0);
     base.p_unnamed = 0.1;
+    base.p_stat = a.num("pstat", 0.06);
     let big_pool: usize = a.num("pool", 24);
     #[cfg(feature = "parallel")]
     let gate_pool = pool(big_pool);
@@ -76,6 +77,8 @@ fn random(a: &Args) {
     let mut samples = Vec::new();
     let mut prev: Option<(shredh::record::Recorded, shred::World)> = None;
     let mut nz = 0usize;
+    #[allow(unused_mut)]
+    let mut ndriven = 0usize;
     // --boundary: the programs of prog::gen_boundary after the random ones
     let nb = if a.flag("boundary") { (0..).take_while(|i| shredh::prog::gen_boundary(*i, &mut StdRng::seed_from_u64(0)).is_some()).count() } else { 0 };
     for k in 0..count + nb {
@@ -112,6 +115,8 @@ fn random(a: &Args) {
         };
         #[cfg(not(feature = "parallel"))]
         let p = ();
+        #[cfg(feature = "parallel")]
+        let own_pool = p.clone();
         let mut r = record_registration_pool(&prog, variant, k + 1, 0, false, p);
         if r.dispatcher.is_none() {
             write_events(&mut w, &r.rec.events);
@@ -167,7 +172,17 @@ fn random(a: &Args) {
                 panics,
                 policy: rng.gen_range(0..4),
             };
+            // now and then the call is made from a worker of the dispatcher's own pool or of a foreign pool
+            #[cfg(feature = "parallel")]
+            shredh::execx::set_driver_pool(if rng.gen_bool(a.num("pdriver", 0.12)) {
+                ndriven += 1;
+                Some(if rng.gen_bool(0.5) && own_pool.current_num_threads() >= 2 { own_pool.clone() } else { small_pools[1].clone() })
+            } else {
+                None
+            });
             let st = run_dispatch(&mut r, &world, &opts);
+            #[cfg(feature = "parallel")]
+            shredh::execx::set_driver_pool(None);
             max_held = max_held.max(st.max_held);
             releases += st.releases;
             stalls += st.stalls;
@@ -199,7 +214,7 @@ fn random(a: &Args) {
     w.flush().unwrap();
     println!(
         "{}",
-        json!({"programs":count + nb,"systems":nsys,"zero_sized_systems":nz,"events":nev,"dispatches":ndisp,"max_held":max_held,
+        json!({"programs":count + nb,"systems":nsys,"zero_sized_systems":nz,"dispatch_calls_made_from_a_pool_worker":ndriven,"events":nev,"dispatches":ndisp,"max_held":max_held,
                "releases":releases,"stalls":stalls,"panicking_dispatches":npan,"samples":samples})
     );
 }
